@@ -10,6 +10,7 @@ import (
 	"encoding/json"
 	"encoding/pem"
 	"fmt"
+	"io"
 	"io/ioutil"
 	"math/rand"
 	"net"
@@ -40,15 +41,16 @@ type c20Step struct {
 }
 
 type c20History struct {
-	t     *testing.T
-	env   *verifEnv
-	res   *verifResult
-	rng   *rand.Rand
-	subs  []*c20Sub
-	steps []c20Step
-	name  string
-	opNo  int
-	stuck bool
+	t      *testing.T
+	env    *verifEnv
+	res    *verifResult
+	rng    *rand.Rand
+	subs   []*c20Sub
+	steps  []c20Step
+	name   string
+	opNo   int
+	stuck  bool
+	hangUp bool
 	// credentials
 	keys        *verifKeys
 	userCookie  *http.Cookie
@@ -201,6 +203,7 @@ type c20Writer struct {
 	*httptest.ResponseRecorder
 	onFirst func()
 	fired   bool
+	hangUp  bool // the requester goes away while the body is written: Write reports an error
 }
 
 func (w *c20Writer) first() {
@@ -212,12 +215,19 @@ func (w *c20Writer) first() {
 func (w *c20Writer) WriteHeader(c int) { w.first(); w.ResponseRecorder.WriteHeader(c) }
 func (w *c20Writer) Write(b []byte) (int, error) {
 	w.first()
-	return w.ResponseRecorder.Write(b)
+	n, err := w.ResponseRecorder.Write(b)
+	if w.hangUp {
+		// the connection breaks on the write that completes the certificate
+		if _, wire := c20ResponseCert(w.ResponseRecorder.Body.Bytes()); wire != nil {
+			return 0, io.ErrClosedPipe
+		}
+	}
+	return n, err
 }
 
 // serve with a hook on the first byte of the response and a watchdog
 func (h *c20History) serve(req *http.Request, onFirst func()) (*httptest.ResponseRecorder, time.Duration, bool) {
-	w := &c20Writer{ResponseRecorder: httptest.NewRecorder(), onFirst: onFirst}
+	w := &c20Writer{ResponseRecorder: httptest.NewRecorder(), onFirst: onFirst, hangUp: h.hangUp}
 	done := make(chan struct{})
 	t0 := time.Now()
 	go func() {
@@ -282,6 +292,11 @@ func c20ResponseCert(body []byte) (string, []byte) {
 
 func (h *c20History) issue(pi int, good bool) {
 	path := c20PathNames[pi]
+	h.hangUp = good && h.rng.Intn(7) == 0
+	defer func() { h.hangUp = false }()
+	if h.hangUp {
+		h.res.bump("requester_hangs_up")
+	}
 	req := h.request(path, good)
 	p := h.probe()
 	var pre, post []eventmon.EventV0
@@ -301,10 +316,10 @@ func (h *c20History) issue(pi int, good bool) {
 			}
 		}
 	})
-	cs := map[string]interface{}{"history": h.name, "op": len(h.steps), "path": path, "good_request": good, "subscribers": h.describeSubs()}
+	cs := map[string]interface{}{"history": h.name, "op": len(h.steps), "path": path, "good_request": good, "requester_hangs_up_during_body": h.hangUp, "subscribers": h.describeSubs()}
 	if !finished {
 		h.stuck = true
-		h.res.hit(verifHit{Key: "C20:blocked:" + path, Oracle: "issuance does not complete while a subscriber is not reading", Kind: "history",
+		h.res.hit(verifHit{Key: "C20:blocked:publish", Oracle: "issuance does not complete while a subscriber is not reading", Kind: "history",
 			What: fmt.Sprintf("%s request still running after %v with subscribers %s", path, lat, h.describeSubs()), Case: cs})
 		return
 	}
@@ -393,7 +408,7 @@ func (h *c20History) login(user, password string, html bool) {
 	rr, _, finished := h.serve(req, func() {})
 	if !finished {
 		h.stuck = true
-		h.res.hit(verifHit{Key: "C20:blocked:login", Oracle: "login does not complete while a subscriber is not reading", Kind: "history", What: "login still running after 8 s", Case: h.name})
+		h.res.hit(verifHit{Key: "C20:blocked:publish", Oracle: "login does not complete while a subscriber is not reading", Kind: "history", What: "login still running after 8 s", Case: h.name})
 		return
 	}
 	ok := (html && rr.Code == 302) || (!html && rr.Code == 200)
@@ -515,7 +530,7 @@ func c20SameEvent(a, b eventmon.EventV0) bool {
 
 func TestVerif_C20(t *testing.T) {
 	verifWriteConsts(t)
-	res := newVerifResult("operation histories (issue on ssh/x509/kubernetes/role-requesting/refresh/cloud-role with a good or a malformed request, password login browser/CLI good/bad, service-provider authorization good/bad, attach/detach) with 0..3 subscribers that never read / read every other operation / drain at once, plus a probe subscriber drained at the first response byte; one history with subscribers over the CONNECT stream; one with no subscriber at all; non-trivial = the request was answered with a certificate / a completed login; distinct by (operation, status, subscriber occupancy)")
+	res := newVerifResult("operation histories (issue on ssh/x509/kubernetes/role-requesting/refresh/cloud-role with a good or a malformed request, a requester that hangs up while the body is written, password login browser/CLI good/bad, service-provider authorization good/bad, attach/detach) with 0..3 subscribers that never read / read every other operation / drain at once, plus a probe subscriber drained at the first response byte; one history with subscribers over the CONNECT stream; one with no subscriber at all; non-trivial = the request was answered with a certificate / a completed login; distinct by (operation, status, subscriber occupancy)")
 	env := verifSetup(t, func(c *AppConfigFile, dir string) {
 		c.Base.AllowedAuthBackendsForWebUI = []string{"password"}
 		c.Base.AllowedAuthBackendsForCerts = []string{"U2F"}
@@ -694,7 +709,7 @@ func TestVerif_C20(t *testing.T) {
 	}
 	sb.WriteString("\n].\n")
 	sb.WriteString("Definition c20_hist_mismatches := Eval vm_compute in mismatches (fun h => negb (dhistory_ok (fst h) (snd h))) histories.\nPrint c20_hist_mismatches.\n")
-	sb.WriteString("Definition c20_ncases := Eval vm_compute in length (concat (map fst histories)).\nPrint c20_ncases.\n")
+	sb.WriteString("Definition c20_ncases := Eval vm_compute in fold_left (fun n h => (n + N.of_nat (length (fst h)))%N) histories 0%N.\nPrint c20_ncases.\n")
 	head := coqCaseHeader + "From KM Require Import Base.Cases Model.Events.\n" + c20BlobDefs.String()
 	if err := ioutil.WriteFile(filepath.Join(verifOut(), "CasesC20.v"), []byte(head+sb.String()), 0644); err != nil {
 		t.Fatal(err)
